@@ -105,7 +105,9 @@ def calls(rng, thorough):
     for m in ("auto", "heat_off", "eco_boost", "away", "day_off", "custom", "auto_with_reset"):
         out.append((" W|2E04", "set_system_mode", (CTL, m), {}, {"system_mode": m}, True))
     out.append((" W|2E04", "set_system_mode", (CTL, "away"), {"until": d}, {"system_mode": "away", "until": d.isoformat(timespec="seconds")}, True))
-    for dd in (_dt.datetime(2024, 2, 29, 23, 59, 59), _dt.datetime(2026, 12, 31, 0, 0, 0), _dt.datetime(2025, 3, 30, 2, 30, 1)):
+    # date-times as dt.now() gives them: with microseconds (the wire carries whole seconds: the fraction is dropped, never carried)
+    for dd in (_dt.datetime(2024, 2, 29, 23, 59, 59), _dt.datetime(2026, 12, 31, 0, 0, 0), _dt.datetime(2025, 3, 30, 2, 30, 1),
+               _dt.datetime(2024, 2, 29, 23, 59, 59, 500000), _dt.datetime(2025, 6, 1, 7, 59, 59, 999999), _dt.datetime(2025, 6, 1, 7, 0, 0, rng.randrange(1, 1000000))):
         for dst in (False, True):
             out.append((" W|313F", "set_system_time", (CTL, dd), {"is_dst": dst}, {"datetime": dd.isoformat(timespec="seconds"), "is_dst": dst}, True))
     for dom in ("FC", "F9", "FA", None):
@@ -288,9 +290,10 @@ def _mc_cases(rng, thorough):
         y = rng.choice([1, 1999, 2024, 2025, 2026, 2100, 9999])
         mth = rng.randrange(1, 13)
         day = rng.randrange(1, 29) if rng.random() < 0.8 else [31, 29 if (y % 4 == 0 and (y % 100 != 0 or y % 400 == 0)) else 28, 31, 30, 31, 30, 31, 31, 30, 31, 30, 31][mth - 1]
-        return _dt.datetime(y, mth, day, rng.randrange(0, 24), rng.randrange(0, 60), rng.randrange(0, 60))
+        return _dt.datetime(y, mth, day, rng.randrange(0, 24), rng.choice([0, 59, rng.randrange(0, 60)]), rng.choice([0, 59, 59, rng.randrange(0, 60)]),
+                            rng.choice([0, 1, 499999, 500000, 999999, rng.randrange(0, 1000000)]))   # the model sees the fields timetuple() gives: no fraction
 
-    untils = [None, _dt.datetime(2024, 2, 29, 23, 59), _dt.datetime(2026, 12, 31, 0, 0), rdt().replace(second=0)]
+    untils = [None, _dt.datetime(2024, 2, 29, 23, 59), _dt.datetime(2026, 12, 31, 0, 0), rdt().replace(second=0, microsecond=0)]
     sps = [None, 21.5, 5.0, -3.0, round(rng.randrange(500, 3501) / 100, 2)]
     durs = [None, 0, 1, 90, rng.randrange(2, 1440), 0xFFFFFE]
     cases = []
@@ -299,9 +302,10 @@ def _mc_cases(rng, thorough):
         cases.append(("zm", (idx, mode, sp, un, du), f"both 0x2349 sh2349 parser_2349 (set_zone_mode {idx} {oz(mode)} {oz(word(sp))} {dtf(un)} {oz(du)})"))
     for idx, mode, ac, un, du in itertools.product([0, 1, 2], [None, 0, 1, 2, 3, 4, 7], [None, True, False], untils, [None, 0, 60, rng.randrange(1, 1440)]):
         cases.append(("dm", (idx, mode, ac, un, du), f"both 0x1F41 sh1f41 parser_1f41 (set_dhw_mode {idx} {oz(mode)} {ob(ac)} {dtf(un)} {oz(du)})"))
-    for mode, un in itertools.product([None, 0, 1, 2, 3, 4, 5, 6, 7, 8], untils + [rdt().replace(second=0) for _ in range(3)]):
+    for mode, un in itertools.product([None, 0, 1, 2, 3, 4, 5, 6, 7, 8], untils + [rdt().replace(second=0, microsecond=0) for _ in range(3)]):
         cases.append(("sm", (mode, un), f"both 0x2E04 sh2e04 parser_2e04 (set_system_mode {oz(mode)} {dtf(un)})"))
     dts = [_dt.datetime(2024, 2, 29, 23, 59, 59), _dt.datetime(2026, 12, 31, 0, 0, 0), _dt.datetime(2025, 3, 30, 2, 30, 1), _dt.datetime(1, 1, 1, 0, 0, 0),
+           _dt.datetime(2024, 2, 29, 23, 59, 59, 500000), _dt.datetime(2025, 12, 31, 23, 59, 59, 999999), _dt.datetime(2025, 6, 1, 7, 30, 59, 500001),
            _dt.datetime(9999, 12, 31, 23, 59, 59)] + [rdt() for _ in range(40 if thorough else 10)]
     for d, dst in itertools.product(dts, [False, True]):
         cases.append(("st", (d, dst), f"both 0x313F sh313f parser_313f (Some (set_system_time (mk_dtf {d.year} {d.month} {d.day} {d.hour} {d.minute} {d.second}) {str(dst).lower()}))"))
